@@ -170,7 +170,8 @@ class FullGaussianObservationModel(GaussianObservationModel):
         # TODO? by linearity couldn't we only require `-2*y_x_model + model_x_model` as summary stat?
         # and couldn't we even collect the already summed version of it?
         s1 = sum_dim(y_x_model)
-        s2 = sum_dim(model_x_model)
+        # use weights of y (carried by `y_x_model`) to mask model values at missing observations
+        s2 = sum_dim(WeightedTensor(model_x_model, y_x_model.weight))
         noise_var = (y_l2 - 2 * s1 + s2) / n_obs.float()
         return compute_std_from_variance(
             noise_var,
